@@ -233,6 +233,15 @@ theorem path_op_badf (pm : Nat) (host : HostOp → HostRes) (fds : FdTable) (cal
   unfold pathCall prologue
   rcases hfd with h | h <;> simp [h]
 
+/-- **path_filestat_follows_symlink.**  path_filestat_get examines the resolved path with `stat`, which FOLLOWS
+    a symbolic link in the last component (and fails with ENOENT on a dangling one) — for every value of the
+    `lookupFlags` argument: the regenerated function does not mention that parameter at all.  (With the
+    SYMLINK_FOLLOW flag set this is what WASI prescribes; without it WASI would want `lstat` — the pinned code
+    has a `TODO` there and follows always.) -/
+theorem path_filestat_follows_symlink (p : Bytes) :
+    Gen.WasiPath.filestatHostCall = "stat" ∧ Gen.WasiPath.filestatUsesLookupFlags = false ∧
+    PathCall.filestatGet.hostOp p = .stat p := ⟨rfl, rfl, rfl⟩
+
 /-- each call's host operation is the one the property names -/
 theorem path_op_kinds (p : Bytes) (n : Nat) :
     PathCall.createDirectory.hostOp p = .mkdir p 0o755 ∧
@@ -349,10 +358,10 @@ theorem path_symlink_acts_on_resolved (pm : Nat) (host : HostOp → HostRes) (fd
     the link target at the buffer and the 4-byte length at `lengthPointer` — and NOTHING else: every other
     byte of guest memory is unchanged, in particular the byte just past the buffer when the target fills it
     exactly or is truncated (no terminator is stored in guest memory).  The regenerated list of stores of
-    wasiPathReadlink is exactly `[i32_store(memory, lengthPointer, length)]`. -/
+    wasiPathReadlink (besides the host's readlink into the buffer) is exactly the store of the length. -/
 theorem readlink_writes_only_buffer (target : Bytes) (mem : Mem) (bufPtr bufLen lenPtr : Nat)
     (hb : bufPtr + min target.length bufLen ≤ mem.length) (hl : lenPtr + 4 ≤ mem.length) :
-    Gen.WasiPath.readlinkStores = ["i32_store(memory, lengthPointer, length);"] ∧
+    Gen.WasiPath.readlinkStores = ["length"] ∧
     (∃ mem', pathReadlinkMem (.inr target) mem bufPtr bufLen lenPtr = .val (0, mem') ∧ mem'.length = mem.length ∧
       ∀ k, ¬ (bufPtr ≤ k ∧ k < bufPtr + min target.length bufLen) → ¬ (lenPtr ≤ k ∧ k < lenPtr + 4) →
         mem'[k]? = mem[k]?) := by
